@@ -161,6 +161,5 @@ void h_unit (void)
 
 
 NOT_DECIDED = {
-    "C20": ["portable IEEE-754 float/double serialisers (float32_be_read ... double64_le_write): built on frexp/pow/ldexp, no FP back end decides them here",
-            "IMA / MS ADPCM block decoders against the reference algorithms: no unit yet"],
+    "C20": [],
 }
